@@ -29,8 +29,11 @@ def gen_cases(ctx):
         forced = cfg['nworkers'] > 0 and rng.random() < 0.4 and n <= 13
         prio = list(range(n))
         rng.shuffle(prio)
-        cases.append(dict(cfg=cfg, n=n, tail=None, table=c01.rand_table(rng, n, zoo=False), fkind='module', kwargs={},
-                          schedule=dict(priority=prio, quiet_ms=15) if forced else None, demand=demand, label='history'))
+        table = c01.rand_table(rng, n, zoo=False)
+        prior = rng.randint(1, n) if rng.random() < 0.35 else None     # an earlier stream of the same stage
+        cases.append(dict(cfg=cfg, n=n, tail=None, table=table, fkind='module', kwargs={},
+                          schedule=dict(priority=prio, quiet_ms=15) if forced else None, demand=demand, label='history',
+                          prior_n=prior, pre_model=(prior, sum(1 for t in table[:prior] if not (t[0] == 'n' and cfg['skipNone']))) if prior else (0, 0)))
     # (b) very long ("unbounded") source: a finite prefix needs finitely many draws
     for _ in range(ctx.scale(12, 80)):
         n = 3000
@@ -46,8 +49,18 @@ def gen_cases(ctx):
     for _ in range(ctx.scale(24, 160)):
         cfg = dict(nworkers=rng.choice([1, 2, 3, 4]), extracache=rng.choice([0, 1, 2, 3]), skipNone=True, maxtasksperchild=None)
         n = rng.choice([1, 2, 4, 6, 9])
+        prior = rng.randint(1, n) if rng.random() < 0.3 else None
         cases.append(dict(cfg=cfg, n=n, tail=None, table=[['u']] * n, fkind='module', kwargs={},
-                          schedule=dict(priority=list(range(n)), hold=True, hold_ms=250, quiet_ms=15), demand=['N*'], label='withheld'))
+                          schedule=dict(priority=list(range(n)), hold=True, hold_ms=250, quiet_ms=15), demand=['N*'], label='withheld',
+                          prior_n=prior, pre_model=(prior, prior) if prior else (0, 0)))
+    # more workers than this machine has cores: the window and the number of busy processes must still be nworkers
+    import os
+    for extra in ([1] if ctx.quick else [1, 3]):
+        nw = (os.cpu_count() or 1) + extra
+        n = nw + 2
+        cases.append(dict(cfg=dict(nworkers=nw, extracache=0, skipNone=True, maxtasksperchild=None), n=n, tail=None, table=[['u']] * n,
+                          fkind='module', kwargs={}, schedule=dict(priority=list(range(n)), hold=True, hold_ms=600, quiet_ms=15),
+                          demand=['N*'], label='withheld', timeout=60))
     return cases
 
 
@@ -67,7 +80,7 @@ def element_of_read(case, reads_so_far):
 
 def judge(ctx, case, res, mout):
     par = case['cfg']['nworkers'] > 0
-    small = {k: case[k] for k in ('cfg', 'n', 'tail', 'fkind', 'kwargs', 'schedule', 'demand', 'label')}
+    small = {k: case.get(k) for k in ('cfg', 'n', 'tail', 'fkind', 'kwargs', 'schedule', 'demand', 'label', 'prior_n', 'pre_model')}
     small['table'] = case['table'] if case['n'] <= 40 else {'periodic_prefix': case['table'][:14], 'n': case['n']}
     cl = case['cfg']['nworkers'] + case['cfg']['extracache']
     ctx.case((case['cfg'], small['table'], case['demand'], case.get('schedule')),
@@ -85,7 +98,7 @@ def judge(ctx, case, res, mout):
         ctx.fail('not-lazy-process-before-first-next', 'creating the stream started %d processes' % cr['new_children'], small)
     ev = res['events']
     firstN = next((i for i, e in enumerate(ev) if e[0] in ('N', 'C', 'T')), len(ev))
-    if any(e[0] in ('P', 'D', 'S') for e in ev[:firstN]):
+    if not case.get('prior_n') and any(e[0] in ('P', 'D', 'S') for e in ev[:firstN]):
         ctx.fail('not-lazy-activity-before-first-next', 'pool/draw/call events before the first next()', small)
     # draw counter at every hand-over
     nv = 0
